@@ -90,6 +90,30 @@ def oracle(chk, inp, msgs, classes_seq, quick, rng):
     return data, ends
 
 
+def inplace_stream(chk, b):
+    """a stream of messages that were built by Cls() and filled IN PLACE (their own `serialized_on_wire` stays False):
+    what is read back is the sequence that was written"""
+    from props.c09 import fill_inplace
+    msgs, seq, terms = [], [], []
+    for v in b.values[:6]:
+        ci = v[1]
+        try:
+            m = b.classes[ci]()
+            terms.append(fill_inplace(m, b, ci, v, chk.rng))
+            bytes(m)
+        except Exception as e:
+            chk.count("inplace_skipped_" + type(e).__name__)
+            continue
+        msgs.append(m)
+        seq.append(b.classes[ci])
+    if not msgs:
+        return
+    inp = {"schema": b.describe(), "built_in_place": terms, "classes": [b.classes.index(c) for c in seq]}
+    chk.case(b.schema_line() + "|inplace-stream|" + "|".join(terms), any(bytes(m) for m in msgs), {"stream_of_in_place_built": len(msgs)})
+    chk.count("inplace_streams")
+    oracle(chk, inp, msgs, seq, True, chk.rng)
+
+
 def run(chk, drv):
     quick = chk.tier == "quick"
     rng = chk.rng
@@ -103,6 +127,7 @@ def run(chk, drv):
         W.count_features(chk, b)
         if drv:
             assert drv.ask1(b.schema_line()) == "ok"
+        inplace_stream(chk, b)
         for rep in range(2):
             n = rng.choice([0, 1, 2, 3, 4, 6])
             vals = [rng.choice(b.values) for _ in range(n)]
